@@ -210,7 +210,8 @@ class State(object):
                 s.add(c)
         s.add(extra)
         t0 = time.time()
-        r = s.check()
+        from .sym import check_deadline
+        r = check_deadline(s, FEAS_TIMEOUT_MS / 1000.0 + 2.0)
         self.shared.feas_checks += 1
         self.shared.feas_time += time.time() - t0
         return r != z3.unsat
